@@ -73,6 +73,12 @@ FRAMES = [
     {'n': 2, 'cols': [{'name': 'o', 'kind': 'ostr', 'cells': ['x', 'y']}]},
     {'n': 2, 'cols': [{'name': 'p', 'kind': 'pstr', 'cells': ['x', None]}]},
     {'n': 2, 'cols': [{'name': 'c', 'kind': 'cat', 'cells': ['x', 'y']}]},
+    # calendar dates held as datetime.date objects
+    {'n': 3, 'cols': [{'name': 'day', 'kind': 'odate',
+                       'cells': ['2001-01-01', None, '1999-12-31']},
+                      {'name': 'i', 'kind': 'int64', 'cells': [1, 2, 3]}]},
+    # a column of byte strings (built directly, see content_value)
+    {'n': 3, 'raw': 'bytes', 'cols': []},
 ]
 # frames whose dtypes pandas/pyarrow change on a parquet round trip
 ROUNDTRIP_CHANGES = {6}
@@ -412,6 +418,11 @@ def content_value(what, c):
         return TEXTS[c[1]] if c[0] == 't' else c[1]
     if what == 'binary':
         return bytes.fromhex(c[1])
+    if FRAMES[c[1]].get('raw') == 'bytes':
+        import pandas as pd
+        return pd.DataFrame({'b': [b'\x00\x01', b'abc',
+                                   'caf\u00e9'.encode('utf-8')],
+                             'i': [1, 2, 3]})
     return c05.build(FRAMES[c[1]])
 
 
